@@ -39,6 +39,60 @@ def run(chk, repo: Repo):
     _r3(chk, repo, ci)
     _r4(chk, repo, ci)
     _r5(chk, repo, ci)
+    chk.rule("C19-R6", "the stored chain is read-only for statistics and diagnostics: no method writes into self.samples in place, and a library function that is "
+                       "handed (a view of) the chain does not write into that argument (followed through calls between module-level functions)", floor=20)
+    _r6(chk, repo, ci)
+
+
+def _r6(chk, repo, ci):
+    from ..alias import FnAlias
+    # module-level functions of the package, by name (for calls like Geweke(self.samples.T))
+    funcs = {}
+    for m in repo.modules.values():
+        for f in m.tree.body:
+            if isinstance(f, ast.FunctionDef):
+                funcs.setdefault(f.name, []).append((m, f))
+
+    def param_writers(f, seen):
+        """parameter names of module-level function f that f (or a module-level function it passes them on to) writes into"""
+        if id(f) in seen:
+            return set()
+        seen = seen | {id(f)}
+        fa = FnAlias(f)
+        ps = func_params(f)
+        # only writes that happen on every completing path of the helper are attributed to its callers: a write under a test on the argument's size
+        # may be infeasible for the arguments the library passes (diagnostics.spectrum pads only when len(x) < nfft/4, and is called with nfft = len(x))
+        g_ = fa.cfg
+        out = {r[6:].split(".")[0] for r, n_, a_, k_ in fa.mutated_roots() if r.startswith("param:")
+               and g_.exit.id not in g_.reachable_from([g_.entry.id], avoid_nodes={n_.id})}
+        for c in ast.walk(f):
+            if isinstance(c, ast.Call) and isinstance(c.func, ast.Name) and len(funcs.get(c.func.id, [])) == 1:
+                g = funcs[c.func.id][0][1]
+                gw = param_writers(g, seen)
+                gps = func_params(g)
+                cn = fa.cfg.stmt_node_containing(c)
+                for i_, arg in enumerate(c.args):
+                    if i_ < len(gps) and gps[i_] in gw and cn is not None:
+                        out |= {r[6:].split(".")[0] for r in fa.roots(arg, cn) if r.startswith("param:")}
+        return out & set(ps)
+    for kind, name, fn in ci.all_functions():
+        if name == "__init__" or kind == "setter":
+            continue
+        fa = FnAlias(fn)
+        inst = f"{ci.qual}.{name}"
+        bad = [(r, a) for r, n_, a, k_ in fa.mutated_roots() if r == "self.samples" or r.startswith("self.samples.")]
+        for c in ast.walk(fn):
+            if isinstance(c, ast.Call) and isinstance(c.func, ast.Name) and len(funcs.get(c.func.id, [])) == 1:
+                g = funcs[c.func.id][0][1]
+                gw = param_writers(g, frozenset())
+                gps = func_params(g)
+                cn = fa.cfg.stmt_node_containing(c)
+                for i_, arg in enumerate(c.args):
+                    if i_ < len(gps) and gps[i_] in gw and cn is not None and any(r == "self.samples" or r.startswith("self.samples.") for r in fa.roots(arg, cn)):
+                        bad.append((f"{c.func.id}({gps[i_]})", c))
+        chk.add("C19-R6", inst, not bad, site(repo, bad[0][1] if bad else fn), "no in-place write reaches the stored chain",
+                f"`{unparse(bad[0][1])[:70] if bad else ''}` writes into the stored chain ({bad[0][0] if bad else ''}): statistics computed afterwards, and every "
+                f"burn-thinned view of the chain, no longer describe the states the sampler produced", bad[0][1] if bad else fn)
 
 
 def _last_axis_slice(sl) -> bool:
@@ -90,7 +144,10 @@ def _r1(chk, repo, ci):
 def _ct(t):
     from ..pattern import norm as pn
     from ..canon import _SymOrder
-    return pn(_SymOrder().visit(ast.parse(t, mode="eval").body))
+    try:
+        return pn(_SymOrder().visit(ast.parse(t, mode="eval").body))
+    except SyntaxError:
+        return pn(t)          # not an expression (e.g. a nested def substituted for its name): compared as text, equal to no expected expression
 
 
 def _r2(chk, repo, ci):
